@@ -36,6 +36,7 @@ def mirror(s):
 import re as _re
 _LOCALSTRUCT = _re.compile(r"^(\w+)\.")
 _OFF = _re.compile(r"^\((.*)\+#(\d+)\)$")
+_PTRCOPY = _re.compile(r"^((?:[A-Za-z_]\w*)(?:(?:->|\.)\w+)+)@\d+$")
 
 
 def _lastfield(key):
@@ -353,6 +354,17 @@ class APE:
                 hv = st.env.get(bk)
                 if hv is not None and hv[0] == "s" and hv[1].startswith("&") and "(" not in hv[1] and "@" not in hv[1]:
                     bk = hv[1]
+                elif hv is not None and hv[0] == "s":
+                    # a local copy of a pointer field (`sfs = f->shared_fs`): name what it points to through the field, as
+                    # long as the field still holds the value that was copied
+                    m_ = _PTRCOPY.match(hv[1])
+                    if m_:
+                        path = m_.group(1)
+                        cur_ = st.env.get(path)
+                        if cur_ is None:
+                            cur_ = ("s", "%s@%d" % (path, st.epoch + st.fver.get(_lastfield(path), 0)))
+                        if cur_ == hv:
+                            bk = path
             if n.get("arrow") and bk.startswith("&"):
                 return bk[1:] + "." + n["field"]       # (&x)->f is x.f
             return bk + ("->" if n.get("arrow") else ".") + n["field"]
@@ -561,9 +573,21 @@ class APE:
                     # objects the callee can reach from what it is given (roots mentioned in its arguments)
                     st.epoch += 1
                     roots = set()
-                    for a in args:
+                    for a, av in zip(args, argv):
                         for x in _re.findall(r"[A-Za-z_]\w*", canon(a)):
                             roots.add(x)
+                            if st.frames:
+                                roots.add(self._name(st, x).split("->")[0].split(".")[0].lstrip("&*"))
+                        # a local that merely holds a copy of a pointer field or the address of a place: keys are named
+                        # through that field / place (see _valkey), so its root is reachable from this argument too
+                        if av[0] == "s":
+                            m_ = _PTRCOPY.match(av[1])
+                            if m_:
+                                roots.add(_re.match(r"^[A-Za-z_]\w*", m_.group(1)).group(0))
+                            elif av[1].startswith("&") and "(" not in av[1]:
+                                m2 = _re.match(r"^&\*?([A-Za-z_]\w*)", av[1])
+                                if m2:
+                                    roots.add(m2.group(1))
                     for k in [k for k in st.env if not self._is_var_key(k)]:
                         m0 = _re.match(r"^[*&(]*([A-Za-z_]\w*)", k)
                         if m0 and m0.group(1) not in roots and m0.group(1) in self.localnames:
